@@ -121,10 +121,11 @@ def ename(e):
 def observe(hass, gst):
     ha = []
     for st in hass.states.async_all():
-        ha.append([sink.name_of(st.entity_id), sink.vid(st.state) if isinstance(st.state, str) else -1, sink.attrs_of(dict(st.attributes))])
+        ha.append([sink.name_of(st.entity_id), sink.vid(st.state) if isinstance(st.state, str) else -1, sink.attrs_of(dict(st.attributes)),
+                   [sink.CLOCK[0].rank(st.last_changed), sink.CLOCK[0].rank(st.last_updated), sink.CLOCK[0].rank(st.last_reported)]])
     names = hass.states.async_entity_ids()
     if [sink.name_of(n) for n in names] != [h[0] for h in ha]:
-        ha.append([[0], -1, []])  # async_all and async_entity_ids disagree: poison the observation
+        ha.append([[0], -1, [], [-1, -1, -1]])  # async_all and async_entity_ids disagree: poison the observation
     g = gst.get(T.IDENT[T.GLOBAL_OBJ])
     return {
         "ha": ha,
@@ -135,6 +136,24 @@ def observe(hass, gst):
 
 
 async def run_case(case):
+    src = gen_file(case)
+    async with PyscriptEnv(files={"pvscript.py": src}, legacy=bool(case.get("legacy"))) as env:
+        hass = env.hass
+        sink.reset(hass)
+        # Home Assistant's wall clock becomes a logical clock: constant within a step, 10 s later at every step
+        import homeassistant.core as hacore
+
+        clock = sink.LogicalClock()
+        sink.CLOCK[0] = clock
+        real_time_mod = hacore.time
+        hacore.time = clock
+        try:
+            return await _run_steps(case, env, hass, clock)
+        finally:
+            hacore.time = real_time_mod
+
+
+async def _run_steps(case, env, hass, clock):
     from homeassistant.helpers.service import async_set_service_schema
 
     from custom_components.pyscript.eval import AstEval
@@ -142,11 +161,8 @@ async def run_case(case):
     from custom_components.pyscript.global_ctx import GlobalContextMgr
     from custom_components.pyscript.state import State
 
-    src = gen_file(case)
     out = []
-    async with PyscriptEnv(files={"pvscript.py": src}, legacy=bool(case.get("legacy"))) as env:
-        hass = env.hass
-        sink.reset(hass)
+    if True:
 
         async def _noop(call):
             return None
@@ -167,6 +183,7 @@ async def run_case(case):
         gst = gctx.global_sym_table if gctx is not None else {}
         out.append({"res": None, **observe(hass, gst)})   # initial state
         for i, step in enumerate(case["steps"]):
+            clock.tick = i + 1
             if step["t"] == "x":
                 x = step["x"]
                 if x[0] == "set":
